@@ -3,6 +3,7 @@
   formed and performs exactly `Spec.insert` on the pairs beneath it.
 -/
 import Gobptree.Proofs.Context
+import Gobptree.Proofs.Linked
 
 namespace Gobptree
 
@@ -98,21 +99,23 @@ theorem leO_lowered_of_leO (h : SWO lt) {lo : Option K} {key k : K} (hk : leO lt
 /-- the inner case, given the induction hypothesis for the children -/
 theorem upsertInner_ok (h : SWO lt) (P : Params K) (hP : P.lt = lt) (hpad : ∀ k, P.pad (some k) ≠ none)
     (ho : 2 ≤ P.order) (hev : P.order % 2 = 0) (key : K) (f : Option V → V) (d : Nat)
-    (ih : ∀ (n : Node K V d) (m : Nat) (lo hi : Option K) (nid : Nat),
-      WF lt P.order d m lo hi n → Node.count n < P.order → ltO lt key hi →
+    (ih : ∀ (n : Node K V d) (m : Nat) (lo hi : Option K) (nid : Nat) (after : Option Nat),
+      WF lt P.order d m lo hi n → Node.count n < P.order → ltO lt key hi → Linked d after n →
       ∃ (n' : Node K V d) (nid' : Nat),
         upsertNode P key f d n nid = .ok (n', nid', Spec.lookup lt (Node.pairs n) key) ∧
         WF lt P.order d m (lowered lt lo key) hi n' ∧
         Node.pairs n' = Spec.insert lt (Node.pairs n) key (f (Spec.lookup lt (Node.pairs n) key)) ∧
-        Node.count n' ≤ Node.count n + 1)
-    (p : Inner K (Node K V d)) (m : Nat) (lo hi : Option K) (nid : Nat)
-    (hw : WF lt P.order (d + 1) m lo hi p) (hroom : p.runts.length < P.order) (hhi : ltO lt key hi) :
+        Node.count n' ≤ Node.count n + 1 ∧ Linked d after n' ∧ Node.firstId n' = Node.firstId n)
+    (p : Inner K (Node K V d)) (m : Nat) (lo hi : Option K) (nid : Nat) (after : Option Nat)
+    (hw : WF lt P.order (d + 1) m lo hi p) (hroom : p.runts.length < P.order) (hhi : ltO lt key hi)
+    (hL : Linked (d + 1) after p) :
     ∃ (n' : Inner K (Node K V d)) (nid' : Nat),
       upsertNode P key f (d + 1) p nid = .ok (n', nid', Spec.lookup lt (Node.pairs (d := d + 1) p) key) ∧
       WF lt P.order (d + 1) m (lowered lt lo key) hi n' ∧
       Node.pairs (d := d + 1) n' = Spec.insert lt (Node.pairs (d := d + 1) p) key
         (f (Spec.lookup lt (Node.pairs (d := d + 1) p) key)) ∧
-      n'.runts.length ≤ p.runts.length + 1 := by
+      n'.runts.length ≤ p.runts.length + 1 ∧ Linked (d + 1) after n' ∧
+      Node.firstId (d := d + 1) n' = Node.firstId (d := d + 1) p := by
   subst hP
   obtain ⟨pid, runts, kids⟩ := p
   obtain ⟨hlen, hle, hm, hne, hlo, hkids⟩ := hw
@@ -133,6 +136,20 @@ theorem upsertInner_ok (h : SWO lt) (P : Params K) (hP : P.lt = lt) (hpad : ∀ 
   obtain ⟨hA, hcW, hkhi, hB⟩ := hkids
   have hnl : nextLo hi ((k, c) :: rB.zip cB) = some k := rfl
   rw [hnl] at hA
+  -- the chain around the routed child
+  have hL0 : LinkedKids (Linked d) (Node.firstId (d := d)) after (cA ++ c :: cB) := hL
+  rw [LinkedKids_append, LinkedKids_cons] at hL0
+  obtain ⟨hLA, hLc, hLB⟩ := hL0
+  have hrelink : ∀ (x : Node K V d) (y : List (Node K V d)), Node.firstId x = Node.firstId c →
+      LinkedKids (Linked d) (Node.firstId (d := d)) after (x :: y) →
+      LinkedKids (Linked d) (Node.firstId (d := d)) after (cA ++ x :: y) := by
+    intro x y hx hxy
+    rw [LinkedKids_append]
+    refine ⟨?_, hxy⟩
+    have : afterOf (Node.firstId (d := d)) after (x :: y) = afterOf (Node.firstId (d := d)) after (c :: cB) := by
+      show some (Node.firstId x) = some (Node.firstId c)
+      rw [hx]
+    rw [this]; exact hLA
   -- the upper bound of the routed child
   have hkeyhiC : ltO P.lt key (nextLo hi (rB.zip cB)) := by
     cases rB with
@@ -213,11 +230,12 @@ theorem upsertInner_ok (h : SWO lt) (P : Params K) (hP : P.lt = lt) (hpad : ∀ 
     by_cases hAnil : rA = []
     · subst hAnil; simp [Kids]
     · rw [hkA hAnil]; exact hA
-  rcases maybeSplit_ok h ho hev nid hWc with ⟨hroomc, hms⟩ | ⟨hfull, l, r, sr, hms, hsr, hWl, hWr, hcl', hcr', hpr, hsml, hsrhi⟩
+  rcases maybeSplit_ok h ho hev nid hWc _ hLc with ⟨hroomc, hms⟩ | ⟨hfull, l, r, sr, hms, hsr, hWl, hWr, hcl', hcr', hpr, hsml, hsrhi, hLl, hLr, hfl⟩
   · -- the child has room: descend into it
-    obtain ⟨c', nid', heq, hW', hp', hcnt'⟩ := ih c (P.order / 2) loC hiC nid hWc hroomc hkeyhiC
+    obtain ⟨c', nid', heq, hW', hp', hcnt', hLc', hfc'⟩ := ih c (P.order / 2) loC hiC nid _ hWc hroomc hkeyhiC hLc
     rw [hlowered] at hW'
-    refine ⟨Inner.mk pid (rA ++ k' :: rB) (cA ++ c' :: cB), nid', ?_, ?_, ?_, by simp⟩
+    refine ⟨Inner.mk pid (rA ++ k' :: rB) (cA ++ c' :: cB), nid', ?_, ?_, ?_, by simp,
+      hrelink c' cB hfc' ⟨hLc', hLB⟩, firstId_mk_append _ _ cA c cB c' hfc' _ _ cB⟩
     · rw [hlook]
       have := upsertNode_nosplit_eq P key f d (Inner.mk pid (rA ++ k :: rB) (cA ++ c :: cB)) nid c c'
         (rA ++ k' :: rB) nid' _ rA.length hidx hchild hlowEq hms heq
@@ -253,11 +271,13 @@ theorem upsertInner_ok (h : SWO lt) (P : Params K) (hP : P.lt = lt) (hpad : ∀ 
     | false =>
       -- descend into the new right sibling
       have hroomr : Node.count r < P.order := by omega
-      obtain ⟨r', nid', heq, hW', hp', hcnt'⟩ := ih r (P.order / 2) (some sr) hiC (nid + 1) hWr hroomr hkeyhiC
+      obtain ⟨r', nid', heq, hW', hp', hcnt', hLr', hfr'⟩ := ih r (P.order / 2) (some sr) hiC (nid + 1) _ hWr hroomr hkeyhiC hLr
       rw [lowered_of_ge sr key hlt] at hW'
       have hlookc : Spec.lookup P.lt (Node.pairs c) key = Spec.lookup P.lt (Node.pairs r) key := by
         rw [hpr, Spec.lookup_append_left h _ _ _ (fun q hq => h.lt_of_lt_of_le (hpl q hq) hlt)]
-      refine ⟨Inner.mk pid (rA ++ k' :: sr :: rB) (cA ++ l :: r' :: cB), nid', ?_, ?_, ?_, by simp; omega⟩
+      refine ⟨Inner.mk pid (rA ++ k' :: sr :: rB) (cA ++ l :: r' :: cB), nid', ?_, ?_, ?_, by simp; omega,
+        hrelink l (r' :: cB) hfl ⟨by show Linked d (some (Node.firstId r')) l; rw [hfr']; exact hLl, hLr', hLB⟩,
+        firstId_mk_append _ _ cA c cB l hfl _ _ (r' :: cB)⟩
       · rw [hlook, hlookc]
         have := upsertNode_split_right_eq P key f d (Inner.mk pid (rA ++ k :: rB) (cA ++ c :: cB)) nid c l r r'
           (rA ++ k' :: rB) nid' _ pad sr rA.length hidx hchild hlowEq hms hp hsr hlt heq
@@ -279,12 +299,14 @@ theorem upsertInner_ok (h : SWO lt) (P : Params K) (hP : P.lt = lt) (hpad : ∀ 
     | true =>
       -- stay in the left half
       have hrooml : Node.count l < P.order := by omega
-      obtain ⟨l', nid', heq, hW', hp', hcnt'⟩ := ih l (P.order / 2) loC (some sr) (nid + 1) hWl hrooml hlt
+      obtain ⟨l', nid', heq, hW', hp', hcnt', hLl', hfl'⟩ := ih l (P.order / 2) loC (some sr) (nid + 1) _ hWl hrooml hlt hLl
       rw [hlowered] at hW'
       have hgt : AllGt P.lt (Node.pairs r) key := fun q hq => h.lt_of_lt_of_le hlt (hpr' q hq)
       have hlookc : Spec.lookup P.lt (Node.pairs c) key = Spec.lookup P.lt (Node.pairs l) key := by
         rw [hpr, Spec.lookup_append_right h _ _ _ hgt]
-      refine ⟨Inner.mk pid (rA ++ k' :: sr :: rB) (cA ++ l' :: r :: cB), nid', ?_, ?_, ?_, by simp; omega⟩
+      refine ⟨Inner.mk pid (rA ++ k' :: sr :: rB) (cA ++ l' :: r :: cB), nid', ?_, ?_, ?_, by simp; omega,
+        hrelink l' (r :: cB) (hfl'.trans hfl) ⟨hLl', hLr, hLB⟩,
+        firstId_mk_append _ _ cA c cB l' (hfl'.trans hfl) _ _ (r :: cB)⟩
       · rw [hlook, hlookc]
         have := upsertNode_split_left_eq P key f d (Inner.mk pid (rA ++ k :: rB) (cA ++ c :: cB)) nid c l r l'
           (rA ++ k' :: rB) nid' _ pad sr rA.length hidx hchild hlowEq hms hp hsr hlt heq
@@ -307,21 +329,21 @@ theorem upsertInner_ok (h : SWO lt) (P : Params K) (hP : P.lt = lt) (hpad : ∀ 
 /-- the main statement, by induction on the height -/
 theorem upsertNode_ok (h : SWO lt) (P : Params K) (hP : P.lt = lt) (hpad : ∀ k, P.pad (some k) ≠ none)
     (ho : 2 ≤ P.order) (hev : P.order % 2 = 0) (key : K) (f : Option V → V) :
-    ∀ (d : Nat) (n : Node K V d) (m : Nat) (lo hi : Option K) (nid : Nat),
-      WF lt P.order d m lo hi n → Node.count n < P.order → ltO lt key hi →
+    ∀ (d : Nat) (n : Node K V d) (m : Nat) (lo hi : Option K) (nid : Nat) (after : Option Nat),
+      WF lt P.order d m lo hi n → Node.count n < P.order → ltO lt key hi → Linked d after n →
       ∃ (n' : Node K V d) (nid' : Nat),
         upsertNode P key f d n nid = .ok (n', nid', Spec.lookup lt (Node.pairs n) key) ∧
         WF lt P.order d m (lowered lt lo key) hi n' ∧
         Node.pairs n' = Spec.insert lt (Node.pairs n) key (f (Spec.lookup lt (Node.pairs n) key)) ∧
-        Node.count n' ≤ Node.count n + 1 := by
+        Node.count n' ≤ Node.count n + 1 ∧ Linked d after n' ∧ Node.firstId n' = Node.firstId n := by
   intro d
   induction d with
   | zero =>
-    intro n m lo hi nid hw hroom hhi
+    intro n m lo hi nid after hw hroom hhi hL
     obtain ⟨a, b, c, e, fb⟩ := hw
-    obtain ⟨l', heq, _, _, hs', hlen', hzip, hge, hle', hmem⟩ :=
+    obtain ⟨l', heq, hid', hnext', hs', hlen', hzip, hge, hle', hmem⟩ :=
       Leaf.upsert_ok h P hP hpad (n : Leaf K V) key f a b
-    refine ⟨l', nid, ?_, ?_, hzip, hle'⟩
+    refine ⟨l', nid, ?_, ?_, hzip, hle', by show l'.next = after; rw [hnext']; exact hL, hid'⟩
     · show (do let (l', cb) ← Leaf.upsert P (n : Leaf K V) key f; pure (l', nid, cb)) = _
       rw [heq]; rfl
     · have hroom' : (n : Leaf K V).keys.length < P.order := hroom
@@ -330,7 +352,7 @@ theorem upsertNode_ok (h : SWO lt) (P : Params K) (hP : P.lt = lt) (hpad : ∀ k
       | inl hin => exact ⟨leO_lowered_of_leO h (fb k hin).1, (fb k hin).2⟩
       | inr he => subst he; exact ⟨lowered_le_key h lo k, hhi⟩
   | succ d ih =>
-    intro n m lo hi nid hw hroom hhi
-    exact upsertInner_ok h P hP hpad ho hev key f d ih n m lo hi nid hw hroom hhi
+    intro n m lo hi nid after hw hroom hhi hL
+    exact upsertInner_ok h P hP hpad ho hev key f d ih n m lo hi nid after hw hroom hhi hL
 
 end Gobptree
